@@ -49,7 +49,7 @@ def generate(rng, tier):
 
 def oracle(case, obs):
     if case.get("broad"):
-        return sc.broad_oracle(case, obs)
+        return sc.jump_oracle(case, obs) or sc.broad_oracle(case, obs)
     if obs["raised"] != "none":
         return f"do() raised: {obs['raised']}"
     why = sc.clock_oracle(obs)
